@@ -2737,7 +2737,8 @@ class Matrix:
                 angle_a = Angle.parse(params[0])
                 try:
                     angle_b = Angle.parse(params[1])
-                except IndexError:  # this isn't valid.
+                except IndexError:  # skew(a) is skew(a, 0).
+                    self.pre_skew(angle_a, 0)
                     continue
                 try:
                     x_param = Length(params[2]).value()
